@@ -474,37 +474,37 @@ fn functions(m: &mut M, n: u64, group: &str) {
     let mut deal = Deal { idx: 0, n: n.max(1), slice: m.slice };
     let table: Vec<(&str, Vec<i32>, bool)> = match group {
         "exp" => vec![
-            ("exp", vec![-60, -30, -9, -8, -7, -3, -2, -1, 0, 1, 2, 3, 5, 8, 9], true),
-            ("exp_m1", vec![-60, -30, -9, -8, -7, -2, -1, 0, 1, 5, 9], true),
+            ("exp", vec![-1000, -980, -60, -30, -9, -8, -7, -3, -2, -1, 0, 1, 2, 3, 5, 8, 9], true),
+            ("exp_m1", vec![-1000, -980, -60, -30, -9, -8, -7, -2, -1, 0, 1, 5, 9], true),
             ("exp2", vec![-60, -2, -1, 0, 1, 2, 5, 9], true),
         ],
         "log" => vec![
             ("ln", vec![-1000, -500, -60, -2, -1, 0, 1, 2, 52, 53, 60, 500, 959], false),
             ("log2", vec![-1000, -60, -1, 0, 1, 53, 959], false),
             ("log10", vec![-1000, -60, -1, 0, 1, 3, 53, 959], false),
-            ("ln_1p", vec![-60, -30, -9, -8, -7, -2, -1, 0, 1, 52, 53, 54, 60, 94, 107, 500], true),
+            ("ln_1p", vec![-1000, -980, -60, -30, -9, -8, -7, -2, -1, 0, 1, 52, 53, 54, 60, 94, 107, 500], true),
         ],
         "trig" => vec![
-            ("sin", vec![-60, -30, -2, -1, 0, 1, 2, 3, 10, 19], true),
+            ("sin", vec![-1000, -980, -60, -30, -2, -1, 0, 1, 2, 3, 10, 19], true),
             ("cos", vec![-60, -30, -2, -1, 0, 1, 2, 3, 10, 19], true),
-            ("tan", vec![-60, -30, -2, -1, 0, 1, 2, 3, 10, 19], true),
+            ("tan", vec![-1000, -980, -60, -30, -2, -1, 0, 1, 2, 3, 10, 19], true),
         ],
         "ang" => vec![
             ("to_degrees", vec![-449, -60, -7, -6, -1, 0, 1, 5, 7, 8, 448], true),
             ("to_radians", vec![-449, -60, -1, 0, 1, 5, 6, 7, 8, 448], true),
         ],
         "atrig" => vec![
-            ("asin", vec![-60, -30, -3, -2, -1, 0], true),
+            ("asin", vec![-1000, -980, -60, -30, -3, -2, -1, 0], true),
             ("acos", vec![-60, -30, -3, -2, -1, 0], true),
-            ("atan", vec![-60, -30, -3, -2, -1, 0, 1, 2, 3, 10, 59], true),
+            ("atan", vec![-1000, -980, -60, -30, -3, -2, -1, 0, 1, 2, 3, 10, 59], true),
         ],
         _ => vec![
-            ("sinh", vec![-60, -30, -9, -2, -1, 0, 1, 2, 5, 9], true),
+            ("sinh", vec![-1000, -980, -60, -30, -9, -2, -1, 0, 1, 2, 5, 9], true),
             ("cosh", vec![-60, -30, -9, -2, -1, 0, 1, 2, 5, 9], true),
-            ("tanh", vec![-60, -30, -9, -2, -1, 0, 1, 2, 5], true),
-            ("asinh", vec![-60, -30, -2, -1, 0, 1, 2, 27, 28, 29, 59], true),
+            ("tanh", vec![-1000, -980, -60, -30, -9, -2, -1, 0, 1, 2, 5], true),
+            ("asinh", vec![-1000, -980, -60, -30, -2, -1, 0, 1, 2, 27, 28, 29, 59], true),
             ("acosh", vec![0, 1, 2, 27, 28, 29, 59], true),
-            ("atanh", vec![-60, -30, -3, -2, -1], true),
+            ("atanh", vec![-1000, -980, -60, -30, -3, -2, -1], true),
         ],
     };
     for (op, exps, both) in table {
@@ -552,7 +552,7 @@ fn powers(m: &mut M, n: u64) {
     }
     for e in [-399, -1, 0, 1, 398] {
         for (hi, lo) in values_at(e) {
-            for d in [0, 1, -1, 26, -27, 52, -53, 54, -60] {
+            for d in [0, 1, -1, 26, -27, 52, -53, 54, -60, 300, -300, 520, -520, 790, -790] {
                 for sig in [SIGS[0], SIGS[3], SIGS[9]] {
                     if !deal.take() {
                         continue;
@@ -562,7 +562,9 @@ fn powers(m: &mut M, n: u64) {
                         continue;
                     }
                     m.group_every(30, "lattice");
-                    if !m.load(0, hi, lo) || !m.load(1, -b, 0.0) {
+                    // (signs: the structural leg positive or negative, the other leg negative)
+                    let sa = if (deal.idx / 3) % 2 == 0 { 1.0 } else { -1.0 };
+                    if !m.load(0, sa * hi, sa * lo) || !m.load(1, -b, 0.0) {
                         continue;
                     }
                     m.call("elem", "hypot", "inh", Some(2), &[A::R(0), A::R(1)]);
